@@ -189,7 +189,7 @@ class PureEval:
                     "bool": bool, "complex": complex, "bytes": bytes, "len": len, "abs": abs, "any": any, "all": all, "hash": hash,
                     "range": range, "enumerate": lambda xs, start=0: tuple(enumerate(xs, start)), "reversed": lambda xs: tuple(reversed(xs)),
                     "Counter": __import__("collections").Counter, "sorted": sorted, "list": list, "set": set, "dict": dict, "sum": sum,
-                    "min": min, "max": max, "zip": lambda *xs: tuple(zip(*xs)), "divmod": divmod, "round": round, "ord": ord, "chr": chr}
+                    "min": min, "max": max, "zip": lambda *xs: tuple(zip(*xs)), "filter": lambda f, xs: tuple(x for x in xs if (f(x) if f is not None else x)), "divmod": divmod, "round": round, "ord": ord, "chr": chr}
         self.lib.update(extra or {})
         self.depth = 0
 
@@ -806,6 +806,16 @@ class ObjEval(BlockEval):
                         continue
                 if not broke:
                     self.exec(st.orelse, env)
+                continue
+            if isinstance(st, ast.With):
+                # a context manager modelled as the value it yields (files, warnings.catch_warnings()): no __exit__ effects
+                for item in st.items:
+                    v = self.ev(item.context_expr, env)
+                    if isinstance(v, dict) and callable(v.get("__enter__")):
+                        v = v["__enter__"]()
+                    if item.optional_vars is not None:
+                        self._store(item.optional_vars, v, env)
+                self.exec(st.body, env)
                 continue
             if isinstance(st, ast.Break):
                 raise _Brk()
